@@ -106,8 +106,15 @@ func goTracking(repo, rel string) ([]string, error) {
 					tracked := "untracked"
 					if i > 0 {
 						if es, ok := list[i-1].(*ast.ExprStmt); ok && strings.HasSuffix(callString(es.X), ".wg.Add()") {
-							if fl, ok := g.Call.Fun.(*ast.FuncLit); ok && len(fl.Body.List) > 0 {
-								if ds, ok := fl.Body.List[0].(*ast.DeferStmt); ok && strings.HasSuffix(callString(ds.Call), ".wg.Done()") {
+							// the goroutine's body: a literal, or a function/method of this file started by name
+							var body *ast.BlockStmt
+							if fl, ok := g.Call.Fun.(*ast.FuncLit); ok {
+								body = fl.Body
+							} else if fd, ok := local[chainName(g.Call)]; ok {
+								body = fd.Body
+							}
+							if body != nil && len(body.List) > 0 {
+								if ds, ok := body.List[0].(*ast.DeferStmt); ok && strings.HasSuffix(callString(ds.Call), ".wg.Done()") {
 									tracked = "tracked"
 								}
 							}
